@@ -4,6 +4,9 @@
 package vleveldb
 
 import (
+	"sort"
+	"sync"
+
 	real "github.com/syndtr/goleveldb/leveldb"
 	"github.com/syndtr/goleveldb/leveldb/iterator"
 	"github.com/syndtr/goleveldb/leveldb/opt"
@@ -46,11 +49,45 @@ type DB struct {
 func (db *DB) Real() *real.DB { return db.real }
 func (db *DB) Path() string   { return db.path }
 
+// open database handles (a handle leaves the set when Close is called on it, whatever Close returns)
+var (
+	openMu  sync.Mutex
+	openDBs = map[*real.DB]string{}
+)
+
 func wrap(db *real.DB, path string, err error) (*DB, error) {
 	if err != nil {
 		return nil, err
 	}
+	openMu.Lock()
+	openDBs[db] = path
+	openMu.Unlock()
 	return &DB{real: db, path: path}, nil
+}
+
+// OpenPaths lists the databases which were opened and not closed since the last ReapOpen.
+func OpenPaths() []string {
+	openMu.Lock()
+	defer openMu.Unlock()
+	var out []string
+	for _, p := range openDBs {
+		out = append(out, p)
+	}
+	sort.Strings(out)
+	return out
+}
+
+// ReapOpen closes the real databases a finished world left open (their background goroutines would keep
+// every write buffer alive for the rest of the process) and returns how many there were.
+func ReapOpen() int {
+	openMu.Lock()
+	dbs := openDBs
+	openDBs = map[*real.DB]string{}
+	openMu.Unlock()
+	for db := range dbs {
+		db.Close()
+	}
+	return len(dbs)
 }
 
 func OpenFile(path string, o *opt.Options) (*DB, error) {
@@ -122,6 +159,9 @@ func (db *DB) Close() error {
 	if err := vsched.Effect("ldb.close", db.path); err != nil {
 		return err
 	}
+	openMu.Lock()
+	delete(openDBs, db.real)
+	openMu.Unlock()
 	return db.real.Close()
 }
 
